@@ -74,7 +74,7 @@ def r8(run, ctx):
     cons = ctx.nodes_calling(f, ['circus.process:Process.__init__'])
     if not run.need('R8', cons, 'Process construction in spawn_process', f):
         return
-    assume = status_assumption('stopped', False)
+    assume = combine(status_assumption('stopped', False), status_assumption('stopping', False))
     r = reach_under(cfg, cfg.entry, assume, avoid=cons)
     n = 0
     for ret in cfg.nodes:
